@@ -98,6 +98,12 @@ Special == <<GNilIface, GChan, GFunc, GNilPtr(GT("int")), GStructOf(<<>>), Nest(
      \o Map1(Tags, LAMBDA tg : GStructOf(<<FV(SA, tg, GNilPtr(GT("int")))>>))
 Singles == Scalars \o Concat(Map1(Scalars, L1)) \o Concat(Map1(Concat(Map1(Few, L1)), L2)) \o Special
 
+PW(d) == GStructOf(<<FV(SA, <<118>>, d)>>)
+PU(p) == GStructOf(<<FV(SA, <<>>, p), FV(SB, <<>>, GStr(<<117>>))>>)
+PSome == GPtrTo(GNum("int", NInt(30)))
+PNone == GNilPtr(GT("int"))
+PI1 == GIface(GNum("int", NInt(1)))
+PIS == GIface(GStr(<<111, 110, 101>>))
 \* pairs of values of ONE Go struct type: two fields, every nil / non-nil / tagged combination
 PairField(tag, s) == <<FV(SA, tag, GPtrTo(s)), FV(SA, tag, GNilPtr(s.t))>>
 PairTags == <<<<120>>, <<120, 44, 109, 97, 121, 98, 101>>>>         \* "x"   "x,maybe"
@@ -113,7 +119,23 @@ PairStructs ==
        [a |-> GStructOf(<<FV(SA, <<120>>, GIface(GNum("int", NInt(1))))>>), b |-> GStructOf(<<FV(SA, <<120>>, GIface(GStr(<<97>>)))>>)],
        [a |-> GStructOf(<<FV(SA, <<120>>, GSliceOf(GPtr(GT("int")), <<GPtrTo(GNum("int", NInt(1)))>>))>>),
         b |-> GStructOf(<<FV(SA, <<120>>, GSliceOf(GPtr(GT("int")), <<GPtrTo(GNum("int", NInt(2))), GPtrTo(GNum("int", NInt(3)))>>))>>)],
-       [a |-> GStructOf(<<FV(SA, <<120>>, GTime(86400, 0))>>), b |-> GStructOf(<<FV(SA, <<120>>, GTime(86400, 3600))>>)]>>
+       [a |-> GStructOf(<<FV(SA, <<120>>, GTime(86400, 0))>>), b |-> GStructOf(<<FV(SA, <<120>>, GTime(86400, 3600))>>)],
+       \* one Go type whose converted type depends on a value held by a nested by-value struct / array / pointer
+       [a |-> GStructOf(<<FV(SA, <<120>>, PW(PI1)), FV(SB, <<110>>, GNum("int", NInt(1)))>>),
+        b |-> GStructOf(<<FV(SA, <<120>>, PW(PIS)), FV(SB, <<110>>, GNum("int", NInt(2)))>>)],
+       [a |-> GStructOf(<<FV(SA, <<120>>, PW(PIS))>>), b |-> GStructOf(<<FV(SA, <<120>>, PW(PI1))>>)],
+       [a |-> GStructOf(<<FV(SA, <<120>>, GArrOf(GT("iface"), <<PI1>>))>>), b |-> GStructOf(<<FV(SA, <<120>>, GArrOf(GT("iface"), <<PIS>>))>>)],
+       [a |-> GStructOf(<<FV(SA, <<120>>, PW(GPtrTo(GNum("int", NInt(5)))))>>), b |-> GStructOf(<<FV(SA, <<120>>, PW(GNilPtr(GT("int"))))>>)],
+       [a |-> GStructOf(<<FV(SA, <<120>>, GSliceOf(PW(PI1).t, <<PW(PI1)>>))>>), b |-> GStructOf(<<FV(SA, <<120>>, GSliceOf(PW(PI1).t, <<PW(PIS)>>))>>)],
+       \* a collection of records of one concrete Go type whose later elements differ in the nil-ness of a field
+       [a |-> GStructOf(<<FV(SA, <<120>>, GSliceOf(PU(PSome).t, <<PU(PSome), PU(PSome)>>))>>),
+        b |-> GStructOf(<<FV(SA, <<120>>, GSliceOf(PU(PSome).t, <<PU(PSome), PU(PNone)>>))>>)],
+       [a |-> GStructOf(<<FV(SA, <<120>>, GSliceOf(PU(PSome).t, <<PU(PSome)>>))>>),
+        b |-> GStructOf(<<FV(SA, <<120>>, GSliceOf(PU(PSome).t, <<PU(PSome), PU(PSome), PU(PNone)>>))>>)],
+       [a |-> GStructOf(<<FV(SA, <<120>>, GArrOf(PU(PSome).t, <<PU(PSome), PU(PSome)>>))>>),
+        b |-> GStructOf(<<FV(SA, <<120>>, GArrOf(PU(PSome).t, <<PU(PSome), PU(PNone)>>))>>)],
+       [a |-> GStructOf(<<FV(SA, <<120>>, GSliceOf(GSliceT(GT("int")), <<GSliceOf(GT("int"), <<GNum("int", NInt(1))>>)>>))>>),
+        b |-> GStructOf(<<FV(SA, <<120>>, GSliceOf(GSliceT(GT("int")), <<GSliceOf(GT("int"), <<GNum("int", NInt(1))>>), GNilSlice(GT("int"))>>))>>)]>>
 
 \* passing a value as interface{} makes a top-level interface wrapper transparent
 RECURSIVE TopUnwrap(_)
